@@ -22,7 +22,7 @@ func NewScanner(r io.Reader) *Scanner {
 }
 
 // read reads the next rune from the bufferred reader.
-// Returns the rune(0) if an error occurs (or io.EOF is returned).
+// Returns eof (-1) if an error occurs (or io.EOF is returned).
 func (s *Scanner) read() rune {
 	ch, _, err := s.r.ReadRune()
 	if err != nil {
